@@ -32,6 +32,7 @@ type auState struct {
 	cookies  []string // k-th successful login's cookie value
 	cfg      *config.Config
 	patterns []string
+	pwDirty  bool
 }
 
 func cheapHash(pw string) string {
@@ -143,6 +144,26 @@ func init() {
 				case "reset":
 					auth.VerifResetSessions()
 					s.cookies = nil
+					if s.pwDirty {
+						// the user table outlives a trace: put the initial passwords back
+						us, err := stores.OpenUserStore()
+						if err != nil {
+							die("auth: user store: %v", err)
+						}
+						for name, pw := range map[string]string{"alice": "pw-alice", "bob": "pw-bob"} {
+							u, err := us.GetByUsername(name)
+							if err != nil {
+								die("auth: reset user %s: %v", name, err)
+							}
+							p, _ := phc.ParsePHC(cheapHash(pw))
+							u.PasswordHash = *p
+							if err := us.Save(u); err != nil {
+								die("auth: reset user %s: %v", name, err)
+							}
+						}
+						us.Close()
+						s.pwDirty = false
+					}
 					lt, th := auth.VerifLifetimes()
 					return fmt.Sprintf("lifetime=%d;threshold=%d", lt.Milliseconds(), th.Milliseconds())
 				case "login": // user pw cookieRef
@@ -167,6 +188,22 @@ func init() {
 						res = fmt.Sprintf("status%d", rec.Code)
 					}
 					o.Count("login:" + strings.SplitN(res, ":", 2)[0])
+					return res + tail()
+				case "chpw": // cookieRef current new : change the password of the session's user
+					rec := do("PATCH", "/api/auth/change-password", f[2], "-", "-", fmt.Sprintf(`{"current_password":%q,"new_password":%q}`, f[3], f[4]))
+					res := fmt.Sprintf("status%d", rec.Code)
+					switch rec.Code {
+					case 204, 200:
+						res = "changed"
+						s.pwDirty = true
+					case 400:
+						res = "refused"
+					case 401:
+						res = "401"
+					case 403:
+						res = "403"
+					}
+					o.Count("chpw:" + res)
 					return res + tail()
 				case "logout":
 					rec := do("POST", "/api/auth/logout", f[2], "-", "-", "")
@@ -237,6 +274,26 @@ func init() {
 						emit("au", "shift", itoa(margins[r.Intn(len(margins))]))
 					}
 					emit("au", "req", "GET", "/api/config", "s0", "-", "-")
+				}
+				if r.Chance(30) {
+					// a password change in the middle of a history of logins under several spellings of the user name (the users
+					// table compares names case-insensitively): afterwards ONLY the new password opens a session, for every spelling
+					sp := []string{"alice", "ALICE", "Alice", "aLiCe"}
+					for k := 0; k < 1+r.Intn(3); k++ {
+						emit("au", "login", sp[r.Intn(4)], []string{"pw-alice", "pw-alice", "wrong"}[r.Intn(3)], "none")
+						nlogin++
+					}
+					emit("au", "login", "alice", "pw-alice", "none")
+					nlogin++
+					who := "s" + itoa(r.Intn(nlogin+1))
+					cur := []string{"pw-alice", "pw-alice", "pw-alice", "wrong", "pw-bob"}[r.Intn(5)]
+					emit("au", "chpw", who, cur, "pw-new")
+					for k := 0; k < 2+r.Intn(3); k++ {
+						emit("au", "login", sp[r.Intn(4)], []string{"pw-alice", "pw-new"}[r.Intn(2)], "none")
+						nlogin++
+					}
+					emit("au", "login", "bob", []string{"pw-bob", "pw-new"}[r.Intn(2)], "none")
+					nlogin++
 				}
 				for i := 0; i < 5+r.Intn(12); i++ {
 					ck := "none"
